@@ -54,6 +54,9 @@ func registerC03(c *Ctx, r registrar, count *Counter) {
 	r.RegisterResources(&mcp.Resource{Name: "multi-nil", URI: "res://multi-nil"}, func(ctx context.Context, req *mcp.ReadResourceRequest) ([]mcp.ResourceContents, error) {
 		return nil, nil
 	})
+	r.RegisterResources(&mcp.Resource{Name: "multi-nil-item", URI: "res://multi-nil-item"}, func(ctx context.Context, req *mcp.ReadResourceRequest) ([]mcp.ResourceContents, error) {
+		return []mcp.ResourceContents{mcp.TextResourceContents{URI: "res://multi-nil-item#1", Text: "t"}, nil}, nil
+	})
 	r.RegisterResources(&mcp.Resource{Name: "multi-empty", URI: "res://multi-empty"}, func(ctx context.Context, req *mcp.ReadResourceRequest) ([]mcp.ResourceContents, error) {
 		return []mcp.ResourceContents{}, nil
 	})
@@ -82,7 +85,9 @@ func genOutcomes(nonce string) []genInput {
 		mk("resource handler error", "resources/read", map[string]interface{}{"uri": "res://fail"}, "handler-error:resource-handler-said-no"),
 		mk("resource handler nil,nil", "resources/read", map[string]interface{}{"uri": "res://nil"}, "handler-nil"),
 		mk("resource blob", "resources/read", map[string]interface{}{"uri": "res://blob"}, "valid"),
-		mk("multi-content resource handler nil,nil", "resources/read", map[string]interface{}{"uri": "res://multi-nil"}, "handler-nil"),
+		// a nil slice is Go's empty list: either answer is in order, "contents": null is not
+		mk("multi-content resource handler: nil slice", "resources/read", map[string]interface{}{"uri": "res://multi-nil"}, "lenient-result"),
+		mk("multi-content resource handler: list with a nil item", "resources/read", map[string]interface{}{"uri": "res://multi-nil-item"}, "handler-nil"),
 		mk("multi-content resource handler: empty list", "resources/read", map[string]interface{}{"uri": "res://multi-empty"}, "valid"),
 		mk("multi-content resource: text and blob", "resources/read", map[string]interface{}{"uri": "res://multi"}, "valid"),
 		mk("templates list", "resources/templates/list", nil, "lenient"),
